@@ -25,8 +25,8 @@ APP_ID = 16777251
 class C05(Check):
     prop = "C05"
     quick_runs = 96
-    thorough_runs = 4000
-    run_wall = 150.0
+    thorough_runs = 3000
+    run_wall = 600.0
     rule = ("one run = a live node brought to Open, then 1..4 application threads submitting <= 12 uniquely tagged "
             "messages each through send_message/send_messages, under a seeded schedule, with seeded partial writes "
             "(incl. one byte at a time), withheld writability, concurrent inbound DWR/application traffic and a "
